@@ -1,7 +1,7 @@
 (* Html/TemplateMore.v — template regions in raw text beyond the first byte of the content, and the converse
    (HasTemplate() = true only if a region lies inside the token). *)
 From Verif Require Import Common.Base Common.Tactics Common.Lx Gen.Tables Html.Model Html.Lemmas Html.ListLemmas
-     Html.Hash Html.Safety Html.Step Html.Spec Html.RawText Html.Func Html.Proofs Html.Template Html.Wf.
+     Html.Hash Html.Safety Html.Step Html.Spec Html.RawText Html.Func Html.Proofs Html.Template Html.Wf Html.Script.
 From Coq Require Import ZifyBool.
 
 (* ---- cursors at a position of the input ----------------------------------------------------------------------------- *)
@@ -76,13 +76,36 @@ Qed.
 Definition raw_plain (c : cfg) (raw : Z) (d : list Z) (a : Z) : Prop :=
   0 <= a < len d /\
   ((getz d a <> 60 /\ prefixb (tb c) (skipz a d) = false) \/
-   (getz d a = 60 /\ getz d (a + 1) <> 47 /\ (raw <> html_hash_Script \/ getz d (a + 1) <> 33))).
+   (getz d a = 60 /\ getz d (a + 1) <> 47 /\
+    (raw <> html_hash_Script \/ getz d (a + 1) <> 33 \/ getz d (a + 2) <> 45 \/ getz d (a + 3) <> 45))).
 
-(* p is reached from a over plain bytes and whole regions *)
+(* "</" + letters at a is the end tag of the element: the letters hash to raw and whitespace, '/', '>' or the end of input follows *)
+Definition end_tag_here_b (raw : Z) (d : list Z) (a : Z) : bool :=
+  let ls := letter_run (skipz (a + 2) d) in
+  match to_hash (map lower ls) with
+  | Ok h => (h =? raw) && follows_end (skipz (len ls) (skipz (a + 2) d))
+  | _ => false
+  end.
+
+(* p is reached from a over plain bytes, whole regions, "</" + letters that is not the element's end tag (the scanner
+   jumps over the letters: a delimiter that starts inside them is not seen), and whole "<!--" ... "-->" sections of a
+   script (esc_end: the section is left by "-->" after n bytes; delimiters inside it are not looked for: known finding
+   c09-template:script-comment) *)
 Inductive raw_reach (c : cfg) (raw : Z) (d : list Z) : Z -> Z -> Prop :=
 | rr_refl a : raw_reach c raw d a a
 | rr_byte a p : raw_plain c raw d a -> raw_reach c raw d (a + 1) p -> raw_reach c raw d a p
-| rr_region a q p : is_region c d a q -> raw_reach c raw d q p -> raw_reach c raw d a p.
+| rr_region a q p : is_region c d a q -> raw_reach c raw d q p -> raw_reach c raw d a p
+| rr_endtag a p : getz d a = 60 -> getz d (a + 1) = 47 -> end_tag_here_b raw d a = false ->
+    raw_reach c raw d (a + 2 + len (letter_run (skipz (a + 2) d))) p -> raw_reach c raw d a p
+| rr_section a n p : raw = html_hash_Script ->
+    getz d a = 60 -> getz d (a + 1) = 33 -> getz d (a + 2) = 45 -> getz d (a + 3) = 45 ->
+    esc_end (length (skipz (a + 4) d)) false (skipz (a + 4) d) = (n, false) ->
+    raw_reach c raw d (a + 4 + n) p -> raw_reach c raw d a p.
+
+Lemma getz_nz_range (d : list Z) a x : getz d a = x -> x <> 0 -> 0 <= a < len d.
+Proof.
+  intros H Hx. unfold getz in H. destruct (peekz d a) eqn:E; [apply peekz_some in E; exact E|congruence].
+Qed.
 
 Lemma at_end_zat d l a : html_inv d l -> a < len d -> at_end (zat l a) = false.
 Proof. intros (_ & Hlen & _) Ha. unfold at_end, zat, lx_len in *. cbn [lbuf lpos]. apply Z.leb_gt. lia. Qed.
@@ -101,9 +124,17 @@ Proof.
     unfold eof0. rewrite (at_end_zat d l a Hi Ha1), andb_false_r. reflexivity.
   - rewrite H60. cbn [Z.eqb]. rewrite (zat_pkr d l a 1 Hi) by lia. cbn [rbind].
     replace (getz d (a + 1) =? 47) with false by (symmetry; apply Z.eqb_neq; exact H47).
-    replace ((raw =? html_hash_Script) && (getz d (a + 1) =? 33)) with false.
-    + cbn [rbind]. reflexivity.
-    + symmetry. apply andb_false_iff. destruct Hsc as [Hs|Hs]; [left|right]; apply Z.eqb_neq; exact Hs.
+    assert (Hscv : (if (raw =? html_hash_Script) && (getz d (a + 1) =? 33)
+                    then c2 <-- pkr (zat l a) 2;; (if c2 =? 45 then c3 <-- pkr (zat l a) 3;; Ok (c3 =? 45) else Ok false)
+                    else Ok false) = Ok false).
+    { destruct ((raw =? html_hash_Script) && (getz d (a + 1) =? 33)) eqn:E; [|reflexivity]. b2p.
+      pose proof (getz_nz_range d (a + 1) 33 ltac:(assumption) ltac:(lia)) as R1.
+      rewrite (zat_pkr d l a 2 Hi) by lia. cbn [rbind].
+      destruct (getz d (a + 2) =? 45) eqn:E2; [|reflexivity]. b2p.
+      pose proof (getz_nz_range d (a + 2) 45 ltac:(assumption) ltac:(lia)) as R2.
+      rewrite (zat_pkr d l a 3 Hi) by lia. cbn [rbind]. do 2 f_equal. apply Z.eqb_neq.
+      destruct Hsc as [?|[?|[?|?]]]; congruence. }
+    rewrite Hscv. cbn [rbind]. reflexivity.
 Qed.
 
 Lemma raw_step_region c raw d l a q h x t : cfg_ok c -> html_inv d l -> tb c = x :: t -> x <> 60 ->
@@ -129,6 +160,57 @@ Proof.
   rewrite at_rem by (apply Hc || exact Hw). rewrite Hpre'. cbn [rbind]. rewrite Hsk. cbn [rbind]. reflexivity.
 Qed.
 
+Lemma raw_step_endtag c raw d l a h : html_inv d l -> lpos (lz l) <= a ->
+  getz d a = 60 -> getz d (a + 1) = 47 -> end_tag_here_b raw d a = false ->
+  rawtext_body c raw (zat l a, h) = Ok (Cont (zat l (a + 2 + len (letter_run (skipz (a + 2) d))), h)) /\
+  a < a + 2 + len (letter_run (skipz (a + 2) d)) <= len d.
+Proof.
+  intros Hi Ha H60 H47 Hnot. pose proof (inv_pos0 d l Hi) as Hp0.
+  pose proof (getz_nz_range d a 60 H60 ltac:(lia)) as Ra. pose proof (getz_nz_range d (a + 1) 47 H47 ltac:(lia)) as Ra1.
+  destruct (zat_wf d l a Hi ltac:(lia)) as [Hw Hrem]. assert (Hr : reads (zat l a) (skipz a d)) by (split; assumption).
+  assert (Hls : len (skipz a d) = len d - a) by (apply len_skipz; lia).
+  destruct (letters_hash (zat l a) 2 (mark (zat l a) + 2) (skipz a d) Hr ltac:(lia) eq_refl) as (Hll & Hh & Hr2 & Hle).
+  rewrite skipz_skipz in Hll, Hh, Hr2, Hle by lia.
+  set (ls := letter_run (skipz (a + 2) d)) in *. pose proof (len_nonneg ls) as Hl0.
+  split; [|lia].
+  unfold rawtext_body. rewrite (zat_pkr d l a 0 Hi) by lia. rewrite Z.add_0_r, H60. cbn [rbind Z.eqb Pos.eqb].
+  rewrite (zat_pkr d l a 1 Hi) by lia. rewrite H47. cbn [rbind Z.eqb Pos.eqb].
+  rewrite Hll. cbn [rbind]. rewrite Hh.
+  unfold end_tag_here_b in Hnot. fold ls in Hnot.
+  destruct (to_hash_ok (map lower ls)) as [hh Ehh]. rewrite Ehh in *. cbn [rbind].
+  replace (mv (zat l a) (2 + len ls)) with (zat l (a + 2 + len ls)) in * by (unfold zat, mv; cbn [lbuf lpos lstart]; f_equal; lia).
+  destruct (hh =? raw) eqn:Er; [|reflexivity]. cbn [andb] in Hnot.
+  destruct (reads_follow _ _ Hr2) as (cz & Hcz & Hfol). rewrite Hcz. cbn [rbind]. rewrite Hfol, Hnot. reflexivity.
+Qed.
+
+Lemma raw_step_section c d l a n h : html_inv d l -> lpos (lz l) <= a ->
+  getz d a = 60 -> getz d (a + 1) = 33 -> getz d (a + 2) = 45 -> getz d (a + 3) = 45 ->
+  esc_end (length (skipz (a + 4) d)) false (skipz (a + 4) d) = (n, false) ->
+  rawtext_body c html_hash_Script (zat l a, h) = Ok (Cont (zat l (a + 4 + n), h)) /\ a < a + 4 + n <= len d.
+Proof.
+  intros Hi Ha H0 H1 H2 H3 He. pose proof (inv_pos0 d l Hi) as Hp0.
+  pose proof (getz_nz_range d a 60 H0 ltac:(lia)) as R0. pose proof (getz_nz_range d (a + 1) 33 H1 ltac:(lia)) as R1.
+  pose proof (getz_nz_range d (a + 2) 45 H2 ltac:(lia)) as R2. pose proof (getz_nz_range d (a + 3) 45 H3 ltac:(lia)) as R3.
+  destruct (zat_wf d l (a + 4) Hi ltac:(lia)) as [Hw4 Hrem4]. assert (Hr4 : reads (zat l (a + 4)) (skipz (a + 4) d)) by (split; assumption).
+  pose proof Hi as (_ & Hlen & _).
+  assert (Hfuel : (length (skipz (a + 4) d) < fuel_of (zat l a))%nat).
+  { assert (len (skipz (a + 4) d) = len d - (a + 4)) by (apply len_skipz; lia). unfold fuel_of, lx_len, zat, len in *. cbn [lbuf lpos] in *. lia. }
+  pose proof (esc_run (length (skipz (a + 4) d)) (skipz (a + 4) d) (zat l (a + 4)) false (fuel_of (zat l a)) (le_n _) Hr4 Hfuel) as Hrun.
+  rewrite He in Hrun.
+  assert (Hn : 0 <= n /\ a + 4 + n <= len d).
+  { destruct (safe_inv _ _ (script_comment_spec (zat l (a + 4)) false Hw4 (fuel_of (zat l a)) ltac:(unfold fuel_of, lx_len, zat; cbn [lbuf lpos]; lia))) as (rr & Err & Hadv).
+    rewrite Hrun in Err. injection Err as <-. cbn [sum_adv] in Hadv. destruct Hadv as (_ & _ & A3).
+    unfold lx_len, zat, mv in *. cbn [lbuf lpos] in *. lia. }
+  split; [|lia].
+  unfold rawtext_body. rewrite (zat_pkr d l a 0 Hi) by lia. rewrite Z.add_0_r, H0. cbn [rbind Z.eqb Pos.eqb].
+  rewrite (zat_pkr d l a 1 Hi) by lia. rewrite H1. cbn [rbind Z.eqb Pos.eqb].
+  change (html_hash_Script =? html_hash_Script) with true. cbn [andb].
+  rewrite (zat_pkr d l a 2 Hi) by lia. rewrite H2. cbn [rbind Z.eqb Pos.eqb].
+  rewrite (zat_pkr d l a 3 Hi) by lia. rewrite H3. cbn [rbind Z.eqb Pos.eqb].
+  replace (mv (zat l a) 4) with (zat l (a + 4)) by reflexivity. rewrite Hrun. cbn [rbind].
+  replace (mv (zat l (a + 4)) n) with (zat l (a + 4 + n)) by (unfold zat, mv; cbn [lbuf lpos lstart]; reflexivity). reflexivity.
+Qed.
+
 Lemma loop_step {S R} (body : S -> res (lp S R)) fuel s s' r :
   body s = Ok (Cont s') -> loop fuel body s' = Ok r -> loop (Datatypes.S fuel) body s = Ok r.
 Proof. intros Hb Hl. cbn [loop]. rewrite Hb. exact Hl. Qed.
@@ -150,7 +232,7 @@ Lemma raw_reach_loop c raw d l x t : cfg_ok c -> html_inv d l -> tb c = x :: t -
     forall r, loop (fuel_of (zat l p)) (rawtext_body c raw) (zat l p, h') = Ok r ->
               loop (fuel_of (zat l a)) (rawtext_body c raw) (zat l a, h) = Ok r.
 Proof.
-  intros Hc Hi Etb Hx a p Hr. induction Hr as [a|a p Hpl Hr IH|a q p Hreg Hr IH]; intros Ha.
+  intros Hc Hi Etb Hx a p Hr. induction Hr as [a|a p Hpl Hr IH|a q p Hreg Hr IH|a p E60 E47 Hnot Hr IH|a n p Eraw E0 E1 E2 E3 Hesc Hr IH]; intros Ha.
   - split; [lia|]. intros h. exists h. split; [tauto|]. intros r Hl. exact Hl.
   - pose proof Hpl as ((_ & Ha1) & _). destruct (IH ltac:(lia)) as [Hp IH'].
     split; [lia|]. intros h. destruct (IH' h) as (h' & Hh & Hl). exists h'. split; [exact Hh|].
@@ -161,6 +243,16 @@ Proof.
     split; [lia|]. intros h. destruct (IH' true) as (h' & Hh & Hl). exists h'. split; [intros _; apply Hh; reflexivity|].
     intros r Hlr. destruct (raw_step_region c raw d l a q h x t Hc Hi Etb Hx ltac:(lia) Hreg) as [Hb _].
     eapply (zat_loop_step _ d l a q); [exact Hi|lia|lia|exact Hb|apply Hl; exact Hlr].
+  - destruct (raw_step_endtag c raw d l a true Hi ltac:(lia) E60 E47 Hnot) as [_ Hq].
+    destruct (IH ltac:(lia)) as [Hp IH'].
+    split; [lia|]. intros h. destruct (IH' h) as (h' & Hh & Hl). exists h'. split; [exact Hh|].
+    intros r Hlr. destruct (raw_step_endtag c raw d l a h Hi ltac:(lia) E60 E47 Hnot) as [Hb _].
+    eapply (zat_loop_step _ d l a _); [exact Hi|lia|exact Hq|exact Hb|apply Hl; exact Hlr].
+  - subst raw. destruct (raw_step_section c d l a n true Hi ltac:(lia) E0 E1 E2 E3 Hesc) as [_ Hq].
+    destruct (IH ltac:(lia)) as [Hp IH'].
+    split; [lia|]. intros h. destruct (IH' h) as (h' & Hh & Hl). exists h'. split; [exact Hh|].
+    intros r Hlr. destruct (raw_step_section c d l a n h Hi ltac:(lia) E0 E1 E2 E3 Hesc) as [Hb _].
+    eapply (zat_loop_step _ d l a _); [exact Hi|lia|exact Hq|exact Hb|apply Hl; exact Hlr].
 Qed.
 
 (* ---- (v') a region reached over plain bytes and earlier regions lies inside the Text token ------------------------ *)
@@ -925,4 +1017,18 @@ Proof.
   destruct Hs as (_ & _ & _ & _ & (T1 & T2 & T3 & T4 & T5 & _ & T7 & _) & _).
   assert (so v1 = lpos (lz l)) by (destruct (Z.eq_dec (so v1) (lpos (lz l))); [assumption|destruct T7 as [T7|T7]; [lia|discriminate|discriminate]]).
   lia.
+Qed.
+
+(* non-vacuity of the two further steps: <script>a</b<!-- c -->{{y}}</script> : from 8 over "a", "</b", the section, to the region at 21 *)
+Example html_template_rawtext_reach_nonvacuous2 :
+  let d := [60;115;99;114;105;112;116;62; 97; 60;47;98; 60;33;45;45;32;99;32;45;45;62; 123;123;121;125;125; 60;47;115;99;114;105;112;116;62] in
+  raw_reach go_tmpl html_hash_Script d 8 22 /\ is_region go_tmpl d 22 27.
+Proof.
+  split.
+  - apply rr_byte; [split; [vm_compute; split; [discriminate|reflexivity]|left; split; [vm_compute; discriminate|vm_compute; reflexivity]]|].
+    apply rr_endtag; [vm_compute; reflexivity|vm_compute; reflexivity|vm_compute; reflexivity|].
+    change (9 + 2 + len (letter_run (skipz (9 + 2) [60;115;99;114;105;112;116;62; 97; 60;47;98; 60;33;45;45;32;99;32;45;45;62; 123;123;121;125;125; 60;47;115;99;114;105;112;116;62]))) with 12.
+    apply (rr_section _ _ _ 12 6); [reflexivity|vm_compute; reflexivity|vm_compute; reflexivity|vm_compute; reflexivity|vm_compute; reflexivity|vm_compute; reflexivity|].
+    apply rr_refl.
+  - split; [lia|]. split; [discriminate|]. split; vm_compute; reflexivity.
 Qed.
